@@ -605,7 +605,8 @@ impl CraneliftCompiler {
                         _ => unreachable!(),
                     };
 
-                    if should_swap {
+                    // The result is always truncated to the requested width, swapped or not.
+                    if should_swap || ty != I64 {
                         let src = self.insn_dst(bcx, &insn);
                         let src_narrow = if ty != I64 {
                             bcx.ins().ireduce(ty, src)
@@ -613,7 +614,11 @@ impl CraneliftCompiler {
                             src
                         };
 
-                        let res = bcx.ins().bswap(src_narrow);
+                        let res = if should_swap {
+                            bcx.ins().bswap(src_narrow)
+                        } else {
+                            src_narrow
+                        };
                         let res_wide = if ty != I64 {
                             bcx.ins().uextend(I64, res)
                         } else {
